@@ -1,5 +1,6 @@
 import Driver.Common
 import Dtn7.Model.Fragment
+import Dtn7.Model.FragmentBundle
 
 /-!
 Driver for C09. One input line per call of the real `Bundle.Fragment` (blank separated):
@@ -22,7 +23,9 @@ Driver for C09. One input line per call of the real `Bundle.Fragment` (blank sep
            blocks = "-" or '.' list  <num>/<type>/<len>/<same>
   reasm    na | <good>/<n>[:<first failure: err|panic|differs>]   Go ReassembleFragments on n shuffles,
            serialisation compared with the original's
-  bundle   hex of the input bundle (replay only)
+  bundle   hex of the input bundle: the replay input, and parsed with the codec model (`Bundle.parseRaw`) so that
+           `inOf` — the numbers the theorems `fragments_fit_mtu` / `pricing_holds` speak about — is compared
+           field by field with the numbers measured on the real code
 -/
 open Dtn7.Frag Driver
 
@@ -162,11 +165,23 @@ def judge (x : In) (first others res reasm : String) : String :=
 
 def handle (line : String) : String :=
   match fields line with
-  | ["frag", mtu, bflags, off, total, zt, pbase, size, first, others, pl, blocks, payload, res, reasm, _bundle] =>
+  | ["frag", mtu, bflags, off, total, zt, pbase, size, first, others, pl, blocks, payload, res, reasm, bundle] =>
     match nat? mtu, nat? bflags, nat? off, nat? total, nat? pbase, nat? size, parsePl pl, parseBlks blocks,
           parseHex payload with
     | some mtu, some bflags, some off, some total, some pbase, some size, some pl, some blocks, some payload =>
-      judge { mtu, flags := bflags, off, total, zeroTime := zt == "1", pbase, size, pl, blocks, payload } first others res reasm
+      let x : In := { mtu, flags := bflags, off, total, zeroTime := zt == "1", pbase, size, pl, blocks, payload }
+      let v := judge x first others res reasm
+      if v != "ok" then v else
+      -- the abstract input of the codec model's bundle must be the measured one
+      match parseHex bundle with
+      | none => "skip parse-bundle-hex"
+      | some bs =>
+        match Dtn7.Bundle.parseRaw {} bs with
+        | .error _ => "diff codec-model-does-not-parse-the-bundle"
+        | .ok (b, _) =>
+          let y := inOf b mtu
+          if y == x then "ok"
+          else s!"diff inOf flags={y.flags} off={y.off} total={y.total} zt={y.zeroTime} pbase={y.pbase} size={y.size} pl={repr y.pl} blocks={repr y.blocks} payload-equal={y.payload == x.payload}"
     | _, _, _, _, _, _, _, _, _ => "skip parse"
   | _ => "skip unknown-op"
 
